@@ -321,7 +321,14 @@ func Generate(r *rand.Rand, cfg GenCfg, rec *Recorder) *Scenario {
 					}
 				}
 			}
-			for {
+			for attempts := 0; ; attempts++ {
+				if attempts > 300 {
+					// everybody is asleep, late or slow at once: let the last candidate create an event anyway
+					c = vals[r.Intn(len(vals))]
+					delete(asleepUntil, c.ID)
+					delete(joinAt, c.ID)
+					break
+				}
 				if cfg.Rounds && len(roundQ) > 0 {
 					c = roundQ[0]
 					roundQ = roundQ[1:]
